@@ -1,6 +1,6 @@
 """C18 - per-site cosmetic resources contain exactly the rules scoped to that host."""
 from lib import vlib
-from checks import coscommon
+from checks import coscommon, netcommon
 
 
 def run(tier, seed):
@@ -10,6 +10,8 @@ def run(tier, seed):
     k = 2 if tier == "quick" else 3
     _, rep = coscommon.mc_and_replay(v, wd, "c18", k, workers=12 if tier == "quick" else 15)
     vlib.require(rep["nontrivial"] > 10, "replay too small")
+    # "a resource that requires any permission is never served as a redirect": the redirect universe (single rules)
+    netcommon.mc_and_replay(v, wd, "c13", 1, False)
     # M3: argument encoding on random argument lists / spellings (control characters, quotes, backslashes, U+2028, $-sequences)
     import os, json
     tr = os.path.join(wd, "trace.ndjson")
